@@ -232,11 +232,25 @@ def _do(c, op, ctx):
         return fp(c.pull(**_kw(op, ('prefix', 'side', 'expire_time', 'tag', 'retry'))))
     if name == 'peek':
         return fp(c.peek(**_kw(op, ('prefix', 'side', 'expire_time', 'tag', 'retry'))))
+    if name == 'keys':
+        return fp([fp(k) for k in c.keys()])
+    if name == 'eqdict':
+        # comparison with a plain mapping (reads only)
+        target = c
+        return fp([target == {'zz-not-there': 1}, target != {}])
     if name == 'get_many':
         # Django's multi-key lookup (BaseCache.get_many unless the backend brings its own)
         return fp(sorted((repr(k), fp(v)) for k, v in c.get_many([vals.dec(k) for k in op['ks']]).items()))
     if name == 'has_key':
         return fp(c.has_key(vals.dec(op['k'])))
+    if name == 'realfork':
+        # the calling thread forks a child that exits at once (a worker started from inside the block); the parent goes on
+        import os as _real_os
+        pid = _real_os.fork()
+        if pid == 0:
+            _real_os._exit(0)
+        _real_os.waitpid(pid, 0)
+        return fp(None)
     if name == 'repolicy':
         # another handle (another process) changes the eviction policy of the directory; this handle reloads the setting
         # the documented way - reset(key) without a value - and from then on follows the new policy
